@@ -40,6 +40,12 @@ def diagnose(chk, case):
         vals = chk.coq_show(HEADER, ["d_spec " + body, "d_model " + body])
         out["implementation_vs_intended_layout(Spec)"] = _bits(vals[0], STRUCT_BITS)
         out["algorithm_model_vs_implementation"] = _bits(vals[1], STRUCT_BITS)
+    elif coq.startswith("(N.max (c_values "):
+        i = coq.index("(c_hident")
+        body = coq[len("(N.max (c_values "):i].rstrip()[:-1]
+        vals = chk.coq_show(HEADER, ["d_values " + body, coq[i:-1]])
+        out["value_check"] = _bits(vals[0], VALUE_BITS)
+        out["H_is_identity_after_reset (0 = yes)"] = vals[1]
     elif coq.startswith("(c_values "):
         body = coq[len("(c_values "):-1]
         vals = chk.coq_show(HEADER, ["d_values " + body])
